@@ -53,9 +53,9 @@ func zzStubOpenFile(name string, flag int, perm os.FileMode) (*os.File, error) {
 	zzRec(name)
 	return nil, os.ErrPermission
 }
-func zzStubRemove(name string) error             { zzRec(name); return nil }
+func zzStubRemove(name string) error                  { zzRec(name); return nil }
 func zzStubMkdir(name string, perm os.FileMode) error { zzRec(name); return nil }
-func zzStubRename(a, b string) error             { zzRec(a); zzRec(b); return nil }
+func zzStubRename(a, b string) error                  { zzRec(a); zzRec(b); return nil }
 
 func zzInRoot(p, root string) bool {
 	if !(p == root || strings.HasPrefix(p, root+"/")) {
